@@ -17,8 +17,9 @@ import (
 	"os"
 	"os/exec"
 	"path/filepath"
-	"runtime/pprof"
+	"runtime"
 	"sort"
+	"strconv"
 	"strings"
 	"time"
 
@@ -100,7 +101,7 @@ type family struct {
 	Alphabet string // full: {add,upsert,update} x 3 keys x {small,5KB,empty} + remove x 3 + get x 3 (33 symbols)
 	//                 small: the same with small values only (15 symbols)
 	MinLen, MaxLen int
-	Batch          string // all | followed | commit
+	Batch          string // all | followed | commit | split3 | finest | one+finest | mid (see batchings)
 	Fresh          bool   // additionally dump from a fresh process
 	OnlyPre        string // "" = both pre-states
 	OnlySlot       int    // 0 = both slot lengths
@@ -110,20 +111,21 @@ func families(thorough bool) []family {
 	if !thorough {
 		return []family{
 			{Name: "full-len1", Alphabet: "full", MinLen: 1, MaxLen: 1, Batch: "all", Fresh: true},
-			{Name: "full-len2", Alphabet: "full", MinLen: 2, MaxLen: 2, Batch: "split3"},
-			{Name: "small-len3", Alphabet: "small", MinLen: 3, MaxLen: 3, Batch: "split3", OnlyPre: "five", OnlySlot: 2},
-			{Name: "onekey-len4", Alphabet: "onekey", MinLen: 4, MaxLen: 4, Batch: "split3", OnlyPre: "five"},
+			{Name: "full-len2-five", Alphabet: "full", MinLen: 2, MaxLen: 2, Batch: "split3", OnlyPre: "five"},
+			{Name: "small-len2-empty", Alphabet: "small", MinLen: 2, MaxLen: 2, Batch: "split3", OnlyPre: "empty"},
+			{Name: "small-len3", Alphabet: "small", MinLen: 3, MaxLen: 3, Batch: "one+finest", OnlyPre: "five", OnlySlot: 2},
+			{Name: "onekey-len4", Alphabet: "onekey", MinLen: 4, MaxLen: 4, Batch: "finest", OnlyPre: "five", OnlySlot: 2},
 		}
 	}
 	return []family{
 		{Name: "full-len1", Alphabet: "full", MinLen: 1, MaxLen: 1, Batch: "all", Fresh: true},
 		{Name: "full-len2", Alphabet: "full", MinLen: 2, MaxLen: 2, Batch: "all", Fresh: true},
-		{Name: "small-len3-five", Alphabet: "small", MinLen: 3, MaxLen: 3, Batch: "all", Fresh: true, OnlyPre: "five"},
+		{Name: "small-len3-five", Alphabet: "small", MinLen: 3, MaxLen: 3, Batch: "followed", OnlyPre: "five"},
 		{Name: "small-len3-empty", Alphabet: "small", MinLen: 3, MaxLen: 3, Batch: "split3", OnlyPre: "empty"},
 		{Name: "full-len3", Alphabet: "full", MinLen: 3, MaxLen: 3, Batch: "finest", OnlyPre: "five", OnlySlot: 2},
-		{Name: "small-len4", Alphabet: "small", MinLen: 4, MaxLen: 4, Batch: "mid", OnlyPre: "five", OnlySlot: 2},
-		{Name: "onekey-len4", Alphabet: "onekey", MinLen: 4, MaxLen: 4, Batch: "all", OnlyPre: "five"},
-		{Name: "onekey-len5", Alphabet: "onekey", MinLen: 5, MaxLen: 5, Batch: "split3", OnlyPre: "five"},
+		{Name: "small-len4", Alphabet: "small", MinLen: 4, MaxLen: 4, Batch: "finest", OnlyPre: "five", OnlySlot: 2},
+		{Name: "onekey-len4", Alphabet: "onekey", MinLen: 4, MaxLen: 4, Batch: "split3", OnlyPre: "five"},
+		{Name: "onekey-len5", Alphabet: "onekey", MinLen: 5, MaxLen: 5, Batch: "split3", OnlyPre: "five", OnlySlot: 2},
 	}
 }
 
@@ -205,13 +207,20 @@ func compositions(n, maxParts int) [][]int {
 // single-transaction batching committed.
 func batchings(n int, mode string) []batching {
 	var out []batching
-	if mode == "finest" || mode == "mid" {
-		// finest: only the finest split into <=3 transactions, all committed; mid: the single transaction
+	if mode == "finest" || mode == "mid" || mode == "one+finest" {
+		// finest: only the finest split into <=3 transactions, all committed; one+finest: the single
+		// transaction and the finest split, all committed; mid: the single transaction
 		// and the finest split with its middle (2 transactions: first) transaction rolled back.
 		all := batchings(n, "split3")
 		if mode == "finest" {
 			if len(all) > 1 {
 				return all[1:2]
+			}
+			return all
+		}
+		if mode == "one+finest" {
+			if len(all) > 2 {
+				return all[:2]
 			}
 			return all
 		}
@@ -483,6 +492,7 @@ type viol struct {
 }
 
 type outcome struct {
+	rc         string // root-cause class of the input ("none" unless the input belongs to a recognised class)
 	viols      []viol
 	final      *model
 	effective  bool // at least one mutating step took effect (per the model)
@@ -497,8 +507,10 @@ func execute(cs caseSpec) (out outcome) {
 	ops := cs.ops()
 	add := func(kind, f string, a ...any) { out.viols = append(out.viols, viol{kind, fmt.Sprintf(f, a...)}) }
 	i := 0
+	out.rc = "none"
 	for ti, n := range cs.Batching.Cuts {
 		rb := ti == cs.Batching.Rollback
+		effRemoves, otherTracked := 0, false
 		end := "commit"
 		work := m
 		if rb {
@@ -521,6 +533,11 @@ func execute(cs caseSpec) (out outcome) {
 			e := work.apply(o)
 			if e.OK && o.Kind != "get" {
 				out.effective = true
+			}
+			if e.OK && o.Kind == "remove" {
+				effRemoves++
+			} else if e.OK {
+				otherTracked = true // effective add/update/upsert or a found get registers the item with the tracker
 			}
 			if o.Kind == "get" {
 				if r.Found != e.Found {
@@ -554,6 +571,11 @@ func execute(cs caseSpec) (out outcome) {
 			return
 		}
 		i += n
+		// Input class: a committed transaction on an actively-persisted store whose only effective
+		// operations are removes (the item tracker then holds no item, see known finding).
+		if !rb && c.Place == "active" && effRemoves > 0 && !otherTracked {
+			out.rc = "active-remove-only-txn"
+		}
 	}
 	out.final = m
 	return
@@ -587,6 +609,7 @@ const ringSize = 32
 
 type pending struct {
 	cs  caseSpec
+	rc  string
 	dir string
 	m   *model
 }
@@ -627,9 +650,9 @@ func (w *worker) prepare(slot int) {
 	w.tpls[slot] = loadTemplate(sopenv.Dir)
 }
 
-func (w *worker) violate(cs caseSpec, v viol) {
+func (w *worker) violate(cs caseSpec, rc string, v viol) {
 	w.run.Violate(ev.Violation{
-		Sig:    fmt.Sprintf("%s|%s", v.Kind, cs.Combo),
+		Sig:    fmt.Sprintf("rc=%s|%s|%s", rc, v.Kind, cs.Combo),
 		Detail: fmt.Sprintf("%s: %s", cs, v.Detail),
 		Replay: cs,
 	})
@@ -637,6 +660,9 @@ func (w *worker) violate(cs caseSpec, v viol) {
 
 func (w *worker) one(cs caseSpec, fresh bool) {
 	slot := w.n % ringSize
+	if slot == 0 {
+		w.flush() // pending folders are about to be reused
+	}
 	w.n++
 	w.prepare(slot)
 	w.tpls[slot].restoreTo(sopenv.Dir, uint64(1000+w.n))
@@ -644,6 +670,7 @@ func (w *worker) one(cs caseSpec, fresh bool) {
 	func() {
 		defer func() {
 			if r := recover(); r != nil {
+				out.rc = "none"
 				out.viols = append(out.viols, viol{"panic", fmt.Sprint("panic: ", r)})
 			}
 		}()
@@ -672,13 +699,13 @@ func (w *worker) one(cs caseSpec, fresh bool) {
 		w.run.Sample(cs.String())
 	}
 	for _, v := range out.viols {
-		w.violate(cs, v)
+		w.violate(cs, out.rc, v)
+	}
+	if out.rc != "none" {
+		w.run.Add("runs_in_known_root_cause_class", 1)
 	}
 	if fresh && len(out.viols) == 0 {
-		w.pend = append(w.pend, pending{cs, sopenv.Dir, out.final})
-	}
-	if len(w.pend) == ringSize || (!fresh && len(w.pend) > 0) {
-		w.flush()
+		w.pend = append(w.pend, pending{cs, out.rc, sopenv.Dir, out.final})
 	}
 }
 
@@ -705,14 +732,14 @@ func (w *worker) flush() {
 	}
 	if err != nil || idx < 0 || len(dumps) != len(w.pend) {
 		for _, p := range w.pend {
-			w.violate(p.cs, viol{"dump-error|fresh-process", fmt.Sprintf("fresh reader process failed: %v %s", err, tail(stderr.String()+stdout.String(), 600))})
+			w.violate(p.cs, p.rc, viol{"dump-error|fresh-process", fmt.Sprintf("fresh reader process failed: %v %s", err, tail(stderr.String()+stdout.String(), 600))})
 		}
 		w.pend = nil
 		return
 	}
 	for i, p := range w.pend {
 		for _, v := range checkDump("fresh-process", p.m, p.cs.Combo.Unique, dumps[i]) {
-			w.violate(p.cs, v)
+			w.violate(p.cs, p.rc, v)
 		}
 	}
 	w.run.Add("fresh_process_dumps", int64(len(w.pend)))
@@ -800,6 +827,11 @@ type jobSpec struct {
 }
 
 func main() {
+	if ev.Job() != "" {
+		// a worker runs one transaction at a time; with more Ps the runtime spends 2-3x the CPU on
+		// futex/spinning for sop's short-lived task goroutines (measured), which matters on a shared box.
+		runtime.GOMAXPROCS(1)
+	}
 	if ev.Job() == "reader" {
 		readerMain()
 	}
@@ -821,13 +853,11 @@ func main() {
 		}
 		c, fam := cs[js.Combo], fams[js.Family]
 		w := newWorker(run, c)
-		if pf := os.Getenv("C19_PROF"); pf != "" {
-			f, _ := os.Create(pf)
-			pprof.StartCPUProfile(f)
-		}
+		// one absolute deadline for the whole run (set by the parent), so that a loaded machine yields a
+		// non-exhaustive result instead of an over-long run.
 		deadline := time.Now().Add(12 * time.Minute)
-		if !thorough {
-			deadline = time.Now().Add(100 * time.Second)
+		if d, err := strconv.ParseInt(os.Getenv("C19_DEADLINE"), 10, 64); err == nil {
+			deadline = time.Unix(d, 0)
 		}
 		stopped := false
 		enumerate(c, fam, js.Shard, js.Shards, func(k caseSpec) {
@@ -842,7 +872,6 @@ func main() {
 			w.one(k, fam.Fresh)
 		})
 		w.flush()
-		pprof.StopCPUProfile()
 		run.Add("effective_runs", w.nontriv)
 		var fl []string
 		for k := range w.finals {
@@ -864,10 +893,13 @@ func main() {
 	perFamily := map[string]int64{}
 	for fi, fam := range fams {
 		sz := familySize(fam)
-		shards := int(sz/2500) + 1
+		shards := int(sz/2000) + 1
 		for ci, c := range cs {
 			if (fam.OnlyPre != "" && c.Pre != fam.OnlyPre) || (fam.OnlySlot != 0 && c.Slot != fam.OnlySlot) {
 				continue
+			}
+			if f := os.Getenv("C19_ONLY"); f != "" && !strings.Contains(c.String()+"|fam="+fam.Name, f) {
+				continue // development knob: restrict to configurations/families containing the substring
 			}
 			planned += sz
 			perFamily[fam.Name] += sz
@@ -878,10 +910,15 @@ func main() {
 		}
 	}
 	// largest families first would leave stragglers of small ones; jobs are uniform enough as is.
-	dl := 4 * time.Minute
+	dl := 100 * time.Second
 	if thorough {
-		dl = 14 * time.Minute
+		dl = 13 * time.Minute
 	}
+	if v, err := strconv.Atoi(os.Getenv("C19_DEADLINE_S")); err == nil && v > 0 {
+		dl = time.Duration(v) * time.Second // knob for shared machines: allow the stated domain to complete
+	}
+	os.Setenv("C19_DEADLINE", fmt.Sprint(time.Now().Add(dl).Unix()))
+	dl += time.Minute
 	run.Parallel(jobs, 0, dl, func(job, output string) *ev.Violation {
 		return &ev.Violation{Sig: "worker-crash", Detail: fmt.Sprintf("worker for job %s died: %s", job, tail(output, 1500)), Replay: job}
 	})
@@ -908,6 +945,13 @@ func main() {
 		}
 	}
 	delete(cov, "per_job")
+	if caps, ok := cov["caps_hit"].([]string); ok && len(caps) > 4 {
+		sort.Strings(caps)
+		run.Set("caps_hit", append(caps[:3:3], fmt.Sprintf("... and %d more workers stopped by the run deadline", len(caps)-3)))
+	}
+	if ev, ok := cov["evaluations"].(int64); ok {
+		run.Set("planned_cases_not_run", planned-ev)
+	}
 	run.Set("planned_cases", planned)
 	run.Set("planned_per_family", perFamily)
 	run.Set("runs_by_batching", byBatch)
@@ -919,7 +963,8 @@ func main() {
 		fd = append(fd, fmt.Sprintf("%s: alphabet=%s length=%d..%d batchings=%s fresh-process-dump=%v pre=%s slot=%s cases-per-configuration=%d", f.Name, f.Alphabet, f.MinLen, f.MaxLen, f.Batch, f.Fresh, map[bool]string{true: "both", false: f.OnlyPre}[f.OnlyPre == ""], map[bool]string{true: "2,4", false: fmt.Sprint(f.OnlySlot)}[f.OnlySlot == 0], familySize(f)))
 	}
 	run.Set("families", fd)
-	run.Set("rule", "DFS, no sampling: for every configuration {value placement node|segment|active|global} x {slot length 2,4} x unique, plus one non-unique configuration (segment, slot 2), from pre-state empty (keys 1,2,3) and from pre-state 10,20,30,40,50 (keys 20,30,35: an item in an inner node, an item in a leaf, an absent key; values small/5KB/empty), EVERY sequence of each family listed in 'families' (alphabet full = {add,upsert,update} x 3 keys x {small v<step>, 5 KB, empty} + remove x 3 keys + find+GetCurrentValue x 3 keys = 33 symbols; small = small values only = 15 symbols) is run under EVERY batching of the family's mode (all = every split into 1..3 consecutive transactions x {all commit, any one rolled back}; followed = all commit, or one rolled back that is followed by a committed one, or the single transaction rolled back; split3 = one transaction / finest split into <=3 transactions all committed / the same with the middle (for 2 transactions: first) one rolled back). Each run = its own restored store folder on tmpfs, real infs transactions, step results compared with a sorted-multiset model (set of possible states for duplicates), then dump+Count read warm, after sopenv.ResetCaches(), and for fresh-process families by a new process. distinct_nontrivial = runs in which at least one mutating operation took effect (model result true); distinct_final_contents = distinct final model contents reached")
+	run.Set("rule", "DFS, no sampling: for every configuration {value placement node|segment|active|global} x {slot length 2,4} x unique, plus one non-unique configuration (segment, slot 2), from pre-state empty (keys 1,2,3) and from pre-state 10,20,30,40,50 (keys 20,30,35: an item in an inner node, an item in a leaf, an absent key; values small/5KB/empty), EVERY sequence of each family listed in 'families' (alphabet full = {add,upsert,update} x 3 keys x {small v<step>, 5 KB, empty} + remove x 3 keys + find+GetCurrentValue x 3 keys = 33 symbols; small = small values only = 15 symbols; onekey = {add small, upsert 5KB, update small, update empty, remove, find+GetCurrentValue} on the inner-node key only = 6 symbols) is run under EVERY batching of the family's mode (all = every split into 1..3 consecutive transactions x {all commit, any one rolled back}; followed = all commit, or one rolled back that is followed by a committed one, or the single transaction rolled back; split3 = one transaction / finest split into <=3 transactions all committed / the same with the middle (for 2 transactions: first) one rolled back; finest = only the finest split into <=3 transactions ([a][b][rest]), all committed; one+finest = one transaction, and the finest split, all committed). With slot length 2 the pre-state tree is root[20,40] over leaves [10][30][50] (non-unique: plus a duplicate of 20), with slot length 4 root[30] over [10,20][40,50]; the first enumerated key is the one held in the inner node. Each run = its own restored store folder on tmpfs, real infs transactions, step results compared with a sorted-multiset model (set of possible states for duplicates), then dump+Count read warm, after sopenv.ResetCaches(), and for fresh-process families by a new process. distinct_nontrivial = runs in which at least one mutating operation took effect (model result true); distinct_final_contents = distinct final model contents reached")
+	run.Assumption("runs tagged rc=active-remove-only-txn (actively persisted store, some committed transaction whose only effective operations are removes) belong to one input class with a known root cause; a second defect that only shows inside that class would be reported under the same prefix")
 	run.Assumption("value domain {small, 5 KB, empty}; 3 keys per pre-state; sequence length and batching families as listed in coverage.families (bounded exhaustive within them, nothing beyond)")
 	run.Assumption("fresh-process dumps are taken by one new process per up to 32 store folders (cold caches between folders); the folders are read in place because a store records its absolute blob path")
 	run.Assumption("single-threaded: no concurrent transactions (C02-C06 cover those); L2 cache is the in-memory implementation")
@@ -940,7 +985,11 @@ func replay(run *ev.Run, file string) {
 	w := newWorker(run, r.Replay.Combo)
 	w.one(r.Replay, true)
 	w.flush()
-	sopenv.Cleanup()
+	if os.Getenv("C19_KEEP") == "" {
+		sopenv.Cleanup()
+	} else {
+		fmt.Println("kept:", sopenv.Dir)
+	}
 	fmt.Println("replayed:", r.Replay)
 	run.Finish()
 }
